@@ -14,6 +14,12 @@ CHECKS = {
          "R3 simulator; block semantics as documented; tolerance 1e-6", "bounded exhaustive scenario enumeration + physical simulation oracle", "2 C05"),
  "C07": ("E1 enumeration of the union of all scenario spaces, build only: structural invariants of the property on every stand-alone and assembled problem (multiset equality with stand-alone assets, block placement, nodal rows)",
          "stand-alone asset problems from fresh objects as reference; c,l,u concatenated in portfolio order", "bounded exhaustive scenario enumeration + structural invariants on every assembled problem", "2 C07"),
+ "C06": ("Part A: all 2^T on/off words x (min runtime, min downtime, initial state, start variables) pinned on the real plant formulation, feasible <=> R4 automaton accepts; Part B: E1 over the plant/CHP menu x price words, property predicates on every optimum and exactness against the best admissible pattern LP",
+         "R4 automaton + pattern LP; wacc 0; no start/shutdown ramp profiles yet; durations rounded up to steps", "explicit-state automaton with every accepted and rejected word replayed on the implementation + bounded exhaustive scenario enumeration", "2 C06"),
+ "C08": ("E3 full product: 36 half-open intervals over 9 instants around the horizon x 14 element kinds (asset windows of every type, orders, take periods) x base portfolios x list positions; window predicate, with/without differential for out-of-horizon elements, prorating metamorphic check",
+         "documented window rule (grid points in [s,e)); R2 plug-in for the differential", "full product enumeration + differential / metamorphic oracles on every execution", "2 C08"),
+ "C20": ("E1 over order lists (1..3 orders x 13 placements x side x price level), full execution, companion portfolios, book position, grids; fractions, per-step delivery, payment, value vs. one-variable-per-order reference (R2, MILP for full execution), inertness differential",
+         "R2 reference; fractions read from output['special']", "bounded exhaustive scenario enumeration against a reference model", "2 C20"),
 }
 
 def main():
